@@ -31,10 +31,12 @@ import re
 
 MC_CFG = """SPECIFICATION Spec
 CONSTANTS
-  ChunkStarts = {1, 2}
+  ChunkStarts = %(cs)s
   ChunkLimit = 4
   MaxSeq = 5
   WSize = 2
+  Jumps = %(jumps)s
+  MaxJump = %(nj)d
   MaxProtect = %(np)d
   MaxUnprotect = %(nu)d
   MaxCrash = %(nc)d
@@ -57,6 +59,8 @@ CONSTANTS
   ChunkLimit = 4
   MaxSeq = 9
   WSize = 2
+  Jumps = {0, 2, 3, 4}
+  MaxJump = 2
   MaxProtect = 12
   MaxUnprotect = 6
   MaxCrash = 4
@@ -70,6 +74,8 @@ CONSTANTS
   ChunkLimit = 4
   MaxSeq = 5
   WSize = 2
+  Jumps = {0}
+  MaxJump = 0
   MaxProtect = 1
   MaxUnprotect = 1
   MaxCrash = 1
@@ -271,8 +277,8 @@ class Driver:
                 p[k] = max(-FAR + 1, min(FAR - 1, p[k]))
         return p
 
-    def emit(self, k, out, n=-1, echo="none", c=-1):
-        e = {"k": k, "out": out, "n": n, "echo": echo, "c": c, "cs": self.sch["cs"], "cl": self.sch["cl"], "mx": self.sch["mx"], "w": self.sch["w"]}
+    def emit(self, k, out, n=-1, echo="none", c=-1, reg="none"):
+        e = {"k": k, "out": out, "n": n, "echo": echo, "c": c, "reg": reg, "cs": self.sch["cs"], "cl": self.sch["cl"], "mx": self.sch["mx"], "w": self.sch["w"]}
         e.update(self.proj())
         self.trace.append(e)
 
@@ -374,12 +380,31 @@ class Driver:
         self.sent[n] = (outer.encode(), self.life, echo)
         return self.sent[n][0], echo
 
+    def regime(self, n):
+        """Coverage only (never judged): where the request number lies relative to the window the
+        context holds right now -- inside / shift (overshoot < size: part of the window survives) /
+        past (n >= index + 2*size - 1: the whole window is left behind) -- prefixed with 'known-'
+        while sequence.json still vouches for a window (no file yet, or received != "unknown")."""
+        try:
+            w = self.ctx.recipient_replay_window
+            if not w.is_initialized():
+                return "uninit"
+            index = int(w.persist()["index"])
+        except Exception:
+            return "none"
+        size = self.sch["w"]
+        over = n - (index + size - 1)
+        r = "inside" if over <= 0 else "shift" if over < size else "past"
+        last = self.trace[-1]
+        return ("known-" if last["dex"] == 0 or (last["dex"] == 1 and last["dunk"] == 0) else "") + r
+
     def op_unprotect(self, op):
         if self.ctx is None:
             return
         n = op["n"]
         wire, echo = self.request_wire(n, op.get("echo", "none"))
         incoming = self.aiocoap.Message.decode(wire)
+        reg = self.regime(n)
 
         def do():
             return self.ctx.unprotect(incoming)
@@ -388,19 +413,19 @@ class Driver:
             st, r = self.guarded(op.get("crash"), do)
         except self.oscore.ReplayErrorWithEcho as e:
             self.learned_echo = e.echo
-            self.emit("unprotect", "reject", n=n, echo=echo)
+            self.emit("unprotect", "reject", n=n, echo=echo, reg=reg)
             return
         except self.oscore.ProtectionInvalid:
-            self.emit("unprotect", "reject", n=n, echo=echo)
+            self.emit("unprotect", "reject", n=n, echo=echo, reg=reg)
             return
         except Exception as e:
             self.notes.append("unprotect raised %r" % (e,))
-            self.emit("unprotect", "reject", n=n, echo=echo)
+            self.emit("unprotect", "reject", n=n, echo=echo, reg=reg)
             return
         if st == "crashed":
-            self.emit("unprotect", "crashed", n=n, echo=echo, c=r)
+            self.emit("unprotect", "crashed", n=n, echo=echo, c=r, reg=reg)
             return
-        self.emit("unprotect", "accept", n=n, echo=echo)
+        self.emit("unprotect", "accept", n=n, echo=echo, reg=reg)
 
     def op_clean(self, op):
         if self.ctx is None:
@@ -422,7 +447,7 @@ class Driver:
 
     def run(self):
         s = self.sch
-        start = {"k": "start", "out": "start", "n": -1, "echo": "none", "c": -1, "cs": s["cs"], "cl": s["cl"], "mx": s["mx"], "w": s["w"]}
+        start = {"k": "start", "out": "start", "n": -1, "echo": "none", "c": -1, "reg": "none", "cs": s["cs"], "cl": s["cl"], "mx": s["mx"], "w": s["w"]}
         self.inj.install(self.oscore)
         try:
             start.update(self.proj())
@@ -564,6 +589,39 @@ def systematic_schedules():
     return out
 
 
+def jump_schedules():
+    """Request numbers far beyond the window.  The FIRST request a lifetime accepts while sequence.json
+    still vouches for its window (fresh directory; loaded after a clean stop, window at 0 or moved)
+    lies at index + j with j = 2w-2 (the window still shifts), 2w-1 (the first number that leaves the
+    whole window behind), 2w and far more (lost messages; a peer that restarted and skipped its own
+    chunk).  The process dies at every crash point of the store this change of the window causes,
+    right after the request, or after further protects that store nothing; the very request is
+    replayed to the reloaded context, followed by Echo recovery, a clean stop and another crash."""
+    out = []
+    for w, (cs, cl) in ((32, (10, 10000)), (2, (1, 4)), (5, (3, 8))):
+        jumps = [2 * w - 2, 2 * w - 1, 2 * w, 3 * w + 7] + ([5000, 2**20 + 3] if w == 32 else [])
+        heads = [
+            ([{"op": "load"}], 0),
+            ([{"op": "load"}, {"op": "unprotect", "n": 0}, {"op": "unprotect", "n": 1}, {"op": "protect", "count": 2}, {"op": "clean"}, {"op": "load"}], 0),
+            ([{"op": "load"}, {"op": "unprotect", "n": 0}, {"op": "unprotect", "n": w + 8}, {"op": "protect", "count": 1}, {"op": "clean"}, {"op": "load"}], 9),
+        ]
+        for head, index in heads:
+            for j in jumps:
+                n = index + j
+                middles = [[{"op": "unprotect", "n": n, "crash": c}, {"op": "crash"}] for c in range(5)]
+                middles.append([{"op": "unprotect", "n": n}, {"op": "crash"}])
+                # the chunk store of this lifetime happens before the request, none after it
+                middles.append([{"op": "protect", "count": 1}, {"op": "unprotect", "n": n}, {"op": "protect", "count": cs - 1}, {"op": "crash"}])
+                tail = [
+                    {"op": "load"}, {"op": "unprotect", "n": n}, {"op": "unprotect", "n": n + 1}, {"op": "unprotect", "n": n + 2, "echo": "fresh"},
+                    {"op": "unprotect", "n": n}, {"op": "protect", "count": 2}, {"op": "clean"}, {"op": "load"}, {"op": "unprotect", "n": n},
+                    {"op": "unprotect", "n": n + 2}, {"op": "unprotect", "n": n + 3}, {"op": "crash"}, {"op": "load"}, {"op": "unprotect", "n": n + 3}, {"op": "unprotect", "n": n},
+                ]
+                for mid in middles:
+                    out.append({"cs": cs, "cl": cl, "mx": FAR, "w": w, "ops": head + mid + tail, "origin": "jump"})
+    return out
+
+
 def boundary_schedules(rng, count):
     """MAX_SEQNO boundary: hand-written sequence.json close to 2^40-1."""
     out = []
@@ -574,8 +632,14 @@ def boundary_schedules(rng, count):
         cs, cl = rng.choice([(10, 10000), (1, 4), (2, 4), (7, 20)])
         received = rng.choice(["unknown", {"index": 0, "bitfield": 0}])
         ops = [{"op": "load"}]
+        peer_next = 0
         for _ in range(rng.randint(2, 5)):
-            ops.append({"op": "protect", "count": rng.randint(1, k + 4), "crash": rng.choice([None, None, 0, 1, 2, 3, 4])})
+            if rng.random() < 0.6:
+                # the receiving side next to the sender's exhaustion: the first request of the lifetime,
+                # consecutive or around / far beyond 2*window-1 ahead of the window in the hand-written file
+                n = peer_next + rng.choice([0, 1, 62, 63, 64, 2**20])
+                peer_next = n + 1
+                ops.append({"op": "unprotect", "n": n, "echo": rng.choice(["none", "fresh"]), "crash": rng.choice([None, None, 0, 1, 2, 3, 4])})
             ops.append(rng.choice([{"op": "crash"}, {"op": "clean"}, {"op": "clean", "crash": rng.randint(0, 4)}, {"op": "protect", "count": 2}]))
             ops.append({"op": "load"})
         ops.append({"op": "protect", "count": k + 3})
@@ -587,12 +651,23 @@ def boundary_schedules(rng, count):
 def random_schedule(rng, long_run=False):
     """Default chunk sizes, default window; several lifetimes."""
     cs, cl = (10, 10000) if long_run or rng.random() < 0.7 else rng.choice([(1, 4), (2, 4), (5, 40), (10, 80)])
+    w = rng.choice([32, 32, 32, 2, 5])
     ops = []
     peer_next = 0
     accepted_any = []
     lifetimes = rng.randint(3, 8)
     for life in range(lifetimes):
         ops.append({"op": "load"})
+        if rng.random() < 0.3:
+            # the first request of the lifetime lies beyond the window (boundary 2*window-1 ahead of the
+            # index = highest + window, when the highest number sent was accepted); often the process
+            # dies right away and the request is replayed to its successor
+            n = peer_next + rng.choice([w - 2, w - 1, w, w + 1, 2 * w - 2, 2 * w - 1, 2 * w, 5000])
+            peer_next = n + 1
+            accepted_any.append(n)
+            ops.append({"op": "unprotect", "n": n, "echo": rng.choice(["none", "none", "fresh"]), "crash": rng.choice([None, None, 0, 1, 2, 3, 4])})
+            if rng.random() < 0.5:
+                ops += [{"op": "crash"}, {"op": "load"}, {"op": "unprotect", "n": n}]
         if long_run and life == 1:
             # one lifetime long enough to grow the chunk to the limit (10+20+..+5120 = 10230 < count)
             ops.append({"op": "protect", "count": 10300 + rng.randint(0, 300)})
@@ -608,8 +683,10 @@ def random_schedule(rng, long_run=False):
             elif r < 0.8:
                 kind = rng.random()
                 if kind < 0.5 or not accepted_any:
-                    n = peer_next
-                    peer_next += rng.choice([1, 1, 1, 2, 40])
+                    # fresh numbers increase: consecutive, a few lost, or a gap around / far beyond the point
+                    # (highest + window) from which the whole window is left behind
+                    n = peer_next + rng.choice([0, 0, 0, 0, 1, 39, w - 2, w - 1, w, 2 * w - 2, 2 * w - 1, 2 * w, 100, 5000])
+                    peer_next = n + 1
                     echo = rng.choice(["none", "none", "fresh", "fresh", "stale"])
                     accepted_any.append(n)
                 else:
@@ -619,7 +696,7 @@ def random_schedule(rng, long_run=False):
             else:
                 ops.append({"op": "protect", "count": 1})
         ops.append(rng.choice([{"op": "crash"}, {"op": "crash"}, {"op": "clean"}, {"op": "clean"}, {"op": "clean", "crash": rng.randint(0, 4)}]))
-    return {"cs": cs, "cl": cl, "mx": FAR, "w": rng.choice([32, 32, 32, 2, 5]), "ops": ops, "origin": "random"}
+    return {"cs": cs, "cl": cl, "mx": FAR, "w": w, "ops": ops, "origin": "random"}
 
 
 def sig_of(clause, trace, at):
@@ -736,19 +813,34 @@ def work(rep, args):
     _env()
     for d in oscore_env.tree_deviations():
         rep.add_drift("tree under test deviates from the RFC 8613 Appendix C vectors: " + d)
-    mc_consts = dict(np=6, nu=2, nc=2, nk=1) if quick else dict(np=6, nu=3, nc=2, nk=2)
+    # two exhaustive runs: the long-standing one (consecutive request numbers, up to MAX_SEQNO on the sender
+    # side) and one in which a fresh request may skip 2w-2 = 2, 2w-1 = 3 or 2w = 4 numbers (window 2: shift /
+    # past the whole window) with fewer protects
+    mc_runs = (
+        [dict(cs="{1, 2}", jumps="{0}", nj=0, np=6, nu=2, nc=2, nk=1), dict(cs="{1}", jumps="{0, 2, 3, 4}", nj=1, np=1, nu=3, nc=1, nk=1)]
+        if quick
+        else [dict(cs="{1, 2}", jumps="{0}", nj=0, np=6, nu=3, nc=2, nk=2), dict(cs="{1, 2}", jumps="{0, 2, 3, 4}", nj=1, np=2, nu=3, nc=2, nk=1)]
+    )
     nsim = 500 if quick else 6000
     nrand = 40 if quick else 1500
     nbound = 28 if quick else 280
     with tlc.Workdir() as wd:
-        wd.write("SP_mc.cfg", MC_CFG % mc_consts)
-        # the exhaustive run proceeds in the background while behaviours are generated and driven
+        # the exhaustive runs proceed in the background while behaviours are generated and driven
         import threading
+        import time as _time
 
-        box = {}
+        box = {"mc": []}
+        t_start = _time.time()
+        phases = {}
 
         def run_mc():
-            box["mc"] = tlc.run(wd, "SeqPersist.tla", "SP_mc.cfg", timeout=1800 if quick else 3400, workers=max(2, (_os.cpu_count() or 4) - 4))
+            for i, consts in enumerate(mc_runs):
+                wd.write("SP_mc%d.cfg" % i, MC_CFG % consts)
+                r = tlc.run(wd, "SeqPersist.tla", "SP_mc%d.cfg" % i, timeout=1800 if quick else 3400, workers=max(2, (_os.cpu_count() or 4) - 4))
+                box["mc"].append(r)
+                if not r.ok:
+                    break
+            phases["model_checking_done_at"] = round(_time.time() - t_start, 1)
 
         th = threading.Thread(target=run_mc)
         th.start()
@@ -758,50 +850,81 @@ def work(rep, args):
         sim = tlc.run(wd, "SeqPersist.tla", "SP_sim.cfg", workers=1, timeout=900, simulate="file=%s/tr,num=%d" % (simdir, nsim), depth=70, seed=args.seed + 1)
         tlc.need_ok_run(sim, "SeqPersist simulation")
         behaviours = tlc.read_sim_traces(_os.path.join(simdir, "tr"))
+        phases["simulation"] = round(sim.wall, 1)
         scheds = schedules_from_behaviours(behaviours)
         n_sim = len(scheds)
         atmax = scaled_max_schedules(behaviours)
         scheds += atmax
         syst = systematic_schedules()
         scheds += syst
+        jumps = jump_schedules()
+        scheds += jumps
         scheds += boundary_schedules(rng, nbound)
         for i in range(nrand):
             scheds.append(random_schedule(rng, long_run=(i < (1 if quick else 6))))
+        t0 = _time.time()
         results = run_all(scheds)
+        phases["driving_the_implementation"] = round(_time.time() - t0, 1)
         for s, res in zip(scheds, results):
             if "error" in res:
                 raise MachineryError("driver failed on schedule %s\n%s" % (json.dumps(s)[:600], res["error"]))
+        t0 = _time.time()
         validated, ndrift = validate_and_report(rep, wd, scheds, results)
+        phases["trace_validation"] = round(_time.time() - t0, 1)
         th.join()
-        mc = box.get("mc")
-        if mc is None:
+        mcs = box["mc"]
+        if not mcs:
             raise MachineryError("SeqPersist model check did not run")
-        tlc.need_ok_run(mc, "SeqPersist model check")
-        if mc.error_trace:
-            # the model itself admits a bad state: only a reproduced real history counts
-            cex = schedules_from_behaviours([mc.error_trace])
-            cres = run_all(cex)
-            for s_, r_ in zip(cex, cres):
-                if "error" in r_:
-                    raise MachineryError("driver failed on counterexample\n%s" % r_["error"])
-            validate_and_report(rep, wd, cex, cres)
-        if mc.violated:
-            rep.notes.append("model check reported %s; counterexample replayed on the implementation" % mc.violated)
-            if not rep.violations:
-                raise MachineryError("SeqPersist model violates %s but the counterexample does not reproduce on the implementation" % mc.violated)
+        for i, mc in enumerate(mcs):
+            tlc.need_ok_run(mc, "SeqPersist model check %d" % i)
+            if mc.error_trace:
+                # the model itself admits a bad state: only a reproduced real history counts
+                cex = schedules_from_behaviours([mc.error_trace])
+                cres = run_all(cex)
+                for s_, r_ in zip(cex, cres):
+                    if "error" in r_:
+                        raise MachineryError("driver failed on counterexample\n%s" % r_["error"])
+                validate_and_report(rep, wd, cex, cres)
+            if mc.violated:
+                rep.notes.append("model check %d reported %s; counterexample replayed on the implementation" % (i, mc.violated))
+                if not rep.violations:
+                    raise MachineryError("SeqPersist model violates %s but the counterexample does not reproduce on the implementation" % mc.violated)
+        if len(mcs) != len(mc_runs):
+            raise MachineryError("SeqPersist: %d of %d model-check runs were carried out" % (len(mcs), len(mc_runs)))
         # what the real histories exercised
         crashes = {}
         counters = {"issued": 0, "refused": 0, "accept": 0, "reject": 0, "load": 0, "clean_done": 0, "idle_crash": 0, "accept_by_echo_after_unclean_stop": 0, "load_unknown_window": 0, "load_known_window": 0}
         max_chunk_seen = 0
         highest = -1
         store_shapes = set()
+        regimes = {}
+        beyond = {}
         for s, res in zip(scheds, results):
             store_shapes.update(res["meta"]["stores"])
             for n in res["meta"]["notes"][:2]:
                 if len(rep.drift) < 12:
                     rep.add_drift("%s schedule: %s" % (s["origin"], n))
             prev_next = None
-            for e in res["trace"][1:]:
+            tr = res["trace"]
+            for i, e in enumerate(tr):
+                # a request beyond the window, accepted (or in the middle of being accepted) while sequence.json
+                # vouched for the window: how did the lifetime end, and was the request replayed to the next one?
+                if e["k"] == "unprotect" and e["out"] in ("accept", "crashed"):
+                    regimes[e["reg"]] = regimes.get(e["reg"], 0) + 1
+                    if e["reg"] in ("known-shift", "known-past"):
+                        how = "crash after %d effects" % e["c"] if e["out"] == "crashed" else None
+                        j = i + 1
+                        if how is None:
+                            while j < len(tr) and tr[j]["k"] == "protect" and tr[j]["out"] == "issued" and tr[j]["dnext"] == e["dnext"]:
+                                j += 1  # protects that store nothing
+                            if j < len(tr) and tr[j]["k"] == "crash":
+                                how = "crash right after" if j == i + 1 else "crash after protects that store nothing"
+                        else:
+                            j = i
+                        if how is not None and any(x["k"] == "unprotect" and x["n"] == e["n"] for x in tr[j + 1 : j + 4]):
+                            key = "%s, %s" % (e["reg"][6:], how)
+                            beyond[key] = beyond.get(key, 0) + 1
+            for e in tr[1:]:
                 if e["out"] == "crashed" and e["k"] != "crash":
                     crashes[(e["k"], e["c"])] = crashes.get((e["k"], e["c"]), 0) + 1
                 elif e["k"] == "crash":
@@ -825,6 +948,8 @@ def work(rep, args):
                     prev_next = e["dnext"] if e["dex"] == 1 and e["k"] == "protect" else None
         want = [(k, c) for k in ("protect", "unprotect", "clean") for c in range(5)]
         missing = [x for x in want if x not in crashes]
+        want_beyond = ["%s, %s" % (r, h) for r in ("shift", "past") for h in ["crash after %d effects" % c for c in range(5)] + ["crash right after", "crash after protects that store nothing"]]
+        missing += [x for x in want_beyond if x not in beyond]
         if (missing or min(counters.values()) == 0) and not rep.violations:
             # (with a violation at hand the verdict stands; a broken tree may well never reach a situation)
             raise MachineryError("situations never exercised: crash points %s, counters %s" % (missing, counters))
@@ -832,11 +957,18 @@ def work(rep, args):
             rep.add_drift("_store performs the file-system effects %s, the model assumes %s" % (sorted(store_shapes), EFFECTS))
         rep.coverage.update(
             {
-                "states": mc.distinct,
-                "transitions": mc.generated,
-                "depth": mc.depth,
-                "mc_constants": dict(mc_consts, ChunkStarts=[1, 2], ChunkLimit=4, MaxSeq=5, WSize=2),
+                "states": sum(m.distinct for m in mcs),
+                "transitions": sum(m.generated for m in mcs),
+                "depth": max(m.depth for m in mcs),
+                "mc_runs": [
+                    {"constants": dict(c, ChunkLimit=4, MaxSeq=5, WSize=2), "states": m.distinct, "transitions": m.generated, "depth": m.depth, "wall_s": round(m.wall, 1)}
+                    for c, m in zip(mc_runs, mcs)
+                ],
                 "exhaustive": True,
+                "phase_seconds": phases,
+                "jump_schedules": len(jumps),
+                "accepted_requests_by_position_relative_to_window": regimes,
+                "first_change_of_a_vouched_window_beyond_it_then_crash_then_replay": beyond,
                 "schedules_from_simulation": n_sim,
                 "schedules_from_simulation_at_real_MAX_SEQNO": len(atmax),
                 "systematic_crash_point_schedules": len(syst),
@@ -854,7 +986,7 @@ def work(rep, args):
                 "distinct_nontrivial": len({tuple((e["k"], e["out"], e["c"]) for e in r["trace"][1:40]) for r in results}),
                 "samples": [
                     {"schedule": scheds[i], "trace": [{k: e[k] for k in ("k", "out", "n", "echo", "c", "ssn", "dex", "dnext", "dunk", "tmp")} for e in results[i]["trace"][:12]]}
-                    for i in (0, n_sim + len(atmax), len(scheds) - nrand - 1)
+                    for i in (0, n_sim + len(atmax), n_sim + len(atmax) + len(syst) + 8, len(scheds) - nrand - 1)
                 ],
                 "checker_cmd": "tlc SeqPersist.tla (Spec exhaustive; -simulate) ; tlc SeqPersistTrace.tla on recorded histories",
             }
